@@ -60,6 +60,9 @@ type Case struct {
 	// HolderReattempt: a third of the way through the hold the holder calls an acquire function on its own lock object
 	// again (a lock object shared by two goroutines of one process): it fails, and the lock it holds stays alive
 	HolderReattempt string `json:"holder_reattempt,omitempty"` // "" | trylock | lockwithtimeout
+	// OddNames: the identifier of the lock and the directory it lives in contain characters that mean something to a
+	// pattern matcher (brackets, braces, a star): they are names like any other
+	OddNames bool `json:"names_with_pattern_characters,omitempty"`
 }
 
 // beat is one heart-beat of the holder: start = its open was issued, end = its time stamp (chtimes) was completed;
@@ -179,7 +182,7 @@ type verdict struct {
 	plain bool // an acquisition that removed nothing itself (TryLock without override, or with it but finding no directory): it judges nothing, it only succeeds when the directory is gone
 }
 
-func startLoad(box *fsbox.Box, level int, stop <-chan struct{}) *sync.WaitGroup {
+func startLoad(box *fsbox.Box, level int, stop <-chan struct{}, dir string) *sync.WaitGroup {
 	var wg sync.WaitGroup
 	if level == 0 {
 		return &wg
@@ -193,7 +196,7 @@ func startLoad(box *fsbox.Box, level int, stop <-chan struct{}) *sync.WaitGroup 
 		go func(i int) {
 			defer wg.Done()
 			buf := make([]byte, 64*1024)
-			p := box.Path("locks", fmt.Sprintf("noise-%d.bin", i))
+			p := filepath.Join(dir, fmt.Sprintf("noise-%d.bin", i))
 			for {
 				select {
 				case <-stop:
@@ -246,10 +249,15 @@ func checkCase(t ev.T, test string, c Case) {
 func runCase(t ev.T, test string, c Case, confirmed bool) (suspectNoHeartBeat bool) {
 	box := fsbox.New(c.Backend)
 	defer box.Close()
-	dir := box.Path("locks")
+	lockID, dirName := "L", "locks"
+	if c.OddNames {
+		lockID, dirName = "L[1]{a,b}*", "lo[c]ks"
+		ev.Class("identifier and directory with pattern characters")
+	}
+	dir := box.Path(dirName)
 	_ = box.Raw.MkdirAll(dir, 0o755)
-	w := &world{lockDir: filepath.Join(dir, filesystem.LockFilePrefix+"-L"), lastStat: map[string]time.Time{}, removed: map[string][]time.Time{}, opens: map[int64]time.Time{}, frozen: map[string]bool{}, lastDetail: map[string]string{}, lastProbe: map[string]probe{}}
-	w.hbPath = filepath.Join(w.lockDir, "L.lock")
+	w := &world{lockDir: filepath.Join(dir, filesystem.LockFilePrefix+"-"+lockID), lastStat: map[string]time.Time{}, removed: map[string][]time.Time{}, opens: map[int64]time.Time{}, frozen: map[string]bool{}, lastDetail: map[string]string{}, lastProbe: map[string]probe{}}
+	w.hbPath = filepath.Join(w.lockDir, lockID+".lock")
 	box.Backend.KeepOps(false)
 	box.Backend.After = w.after
 	var hbIssued atomic.Int64 // heart-beat writes the holder has at least begun (counted when issued, whatever the disk does next)
@@ -289,7 +297,7 @@ func runCase(t ev.T, test string, c Case, confirmed bool) (suspectNoHeartBeat bo
 		}
 	}
 	stopLoad := make(chan struct{})
-	loadWG := startLoad(box, c.Load, stopLoad)
+	loadWG := startLoad(box, c.Load, stopLoad, dir)
 	defer func() { close(stopLoad); loadWG.Wait() }()
 
 	life, endLife := context.WithCancel(context.Background())
@@ -306,9 +314,9 @@ func runCase(t ev.T, test string, c Case, confirmed bool) (suspectNoHeartBeat bo
 			last = now
 		}
 	}()
-	holder := filesystem.NewGenericRemoteLockFile(hFS.(*filesystem.VFS), "L", dir, false)
-	obsID := "L"
-	if c.ObserverID != "" {
+	holder := filesystem.NewGenericRemoteLockFile(hFS.(*filesystem.VFS), lockID, dir, false)
+	obsID := lockID
+	if c.ObserverID != "" && !c.OddNames {
 		obsID = c.ObserverID
 		ev.Class("observers spell the identifier differently")
 	}
@@ -639,6 +647,9 @@ func genCase(t *rapid.T) Case {
 		maxP = 300
 	}
 	c.Periods = rapid.SampledFrom([]int{1, 2, 3, 5, 8, 12, maxP}).Draw(t, "periods")
+	if !ev.Thorough() && rapid.IntRange(0, 39).Draw(t, "long-hold") == 0 {
+		c.Periods = 110 // "however long it is held": a few holds of more than a hundred periods in the quick tier too
+	}
 	n := rapid.IntRange(1, 6).Draw(t, "observers")
 	for i := 0; i < n; i++ {
 		c.Observers = append(c.Observers, Observer{Action: rapid.SampledFrom([]string{"isstale", "isstale", "releaseifstale", "trylock", "trylock-override"}).Draw(t, fmt.Sprintf("act%d", i)),
@@ -649,6 +660,7 @@ func genCase(t *rapid.T) Case {
 		c.SlowWriteMs = rapid.SampledFrom([]int{10, 35, 45}).Draw(t, "slow-write-ms")
 	}
 	c.Reacquire = rapid.IntRange(0, 3).Draw(t, "reacquire") == 0
+	c.OddNames = rapid.IntRange(0, 5).Draw(t, "odd-names") == 0
 	if rapid.IntRange(0, 5).Draw(t, "obs-id") == 0 {
 		c.ObserverID = rapid.SampledFrom([]string{" L", "L ", "L\n", "\tL", " L \n"}).Draw(t, "obs-id-spelling")
 	}
